@@ -6,6 +6,7 @@ logic.py for decision-making while keeping I/O operations (func calls, sleep) he
 """
 
 import asyncio
+import threading
 from collections.abc import Callable
 from concurrent.futures import ThreadPoolExecutor
 from concurrent.futures import TimeoutError as FutureTimeoutError
@@ -53,7 +54,9 @@ def _call_with_timeout(func: Callable[[], T], timeout_s: float) -> T:
     executor = ThreadPoolExecutor(max_workers=1)
     future = executor.submit(func)
     try:
-        result = future.result(timeout=timeout_s)
+        # Condition.wait() rejects timeouts beyond threading.TIMEOUT_MAX (inf, 1e10, ...) with
+        # OverflowError, which would be mistaken for a failure of the operation.
+        result = future.result(timeout=min(timeout_s, threading.TIMEOUT_MAX))
         failure = future.exception()
         if failure is not None:
             # Future.result() truth-tests the stored exception: a falsy exception object
